@@ -162,6 +162,13 @@ func c20Message(r *rand.Rand, id uint32, template bool) (*entities.Message, c20E
 		}
 		ies = append(ies, ie)
 	}
+	// RFC 7011 allows an information element to occur more than once in a record: one message in three
+	// repeats one of its elements (each occurrence is a field of the record and has its own value)
+	if r.IntN(3) == 0 {
+		d := ies[r.IntN(len(ies))]
+		at := r.IntN(len(ies) + 1)
+		ies = append(ies[:at], append([]*entities.InfoElement{d}, ies[at:]...)...)
+	}
 	set := entities.NewSet(true)
 	if template {
 		ev.Kind = "template"
